@@ -161,6 +161,9 @@ pub struct InstOpts {
     pub scan_cases: usize,
     pub fifo: bool,
     pub known: Arc<BTreeSet<(String, String)>>,
+    /// property under check: structural findings that belong to other properties are recorded
+    /// and the history continues, so that this property's own monitors still get to run
+    pub focus: Option<String>,
     /// length of 'large' filter replacements (must be the same for every tree of a lock-step group)
     pub filter_large_len: usize,
 }
@@ -200,6 +203,8 @@ pub struct Instance {
     /// (property, signature) pairs listed as known findings: recorded, not fatal
     pub known: Arc<BTreeSet<(String, String)>>,
     pub known_hits: BTreeMap<String, (u64, String)>,
+    pub focus: Option<String>,
+    pub other_hits: BTreeMap<String, (u64, String)>,
     /// the tree holds blob frames written by bulk ingestion (their frame seqno is 0)
     pub ingested_blobs: bool,
     pub last_blob_ids: BTreeSet<u64>,
@@ -275,6 +280,8 @@ impl Instance {
             extra_tags: vec![],
             known: opts.known.clone(),
             known_hits: BTreeMap::new(),
+            focus: opts.focus.clone(),
+            other_hits: BTreeMap::new(),
             ingested_blobs: false,
             last_blob_ids: BTreeSet::new(),
             blob_left_by: BTreeMap::new(),
@@ -289,6 +296,11 @@ impl Instance {
     fn tolerate(&mut self, v: Violation) -> Result<(), Violation> {
         if let Some(tag) = v.tags.iter().find(|t| self.known.contains(&((*t).clone(), v.sig.clone()))) {
             let e = self.known_hits.entry(format!("{tag}|{}", v.sig)).or_insert((0, v.msg.clone()));
+            e.0 += 1;
+            Ok(())
+        } else if self.focus.as_ref().is_some_and(|f| !v.tags.contains(f)) {
+            // belongs to another property: that property's own check reports it
+            let e = self.other_hits.entry(format!("{}|{}", v.tags.join(","), v.sig)).or_insert((0, v.msg.clone()));
             e.0 += 1;
             Ok(())
         } else {
@@ -1209,8 +1221,24 @@ impl Instance {
         let vid = version.id();
         // which op removed a blob file from the version?
         let now_blobs: BTreeSet<u64> = version.blob_files.iter().map(lsm_tree::BlobFile::id).collect();
-        for gone in self.last_blob_ids.difference(&now_blobs) {
+            for gone in self.last_blob_ids.difference(&now_blobs) {
             self.blob_left_by.insert(*gone, self.ctx_name.clone());
+        }
+        // coverage: blob files created by a compaction (relocation output or filter replacements)
+        let is_compaction = ["leveled", "major", "pull_down"].iter().any(|p| self.ctx_name.starts_with(p));
+        if is_compaction {
+            let fresh = now_blobs.difference(&self.last_blob_ids).count() as u64;
+            if fresh > 0 {
+                bump(&mut self.counters, "blob:compactions_creating_blob_files", 1);
+                bump(&mut self.counters, "blob:blob_files_created_by_compaction", fresh);
+                if fresh > 1 {
+                    bump(&mut self.counters, "blob:compactions_creating_several_blob_files", 1);
+                }
+            }
+            let gone = self.last_blob_ids.difference(&now_blobs).count() as u64;
+            if gone > 0 {
+                bump(&mut self.counters, "blob:blob_files_dropped_by_compaction", gone);
+            }
         }
         self.last_blob_ids = now_blobs;
         let unlisted: Vec<(u64, u64)> = version
